@@ -769,8 +769,9 @@ func checkC04(c *Ctx) {
 		"(b) ordered declaration tables: the checker's own Folang tokenizer segments each .fo at column-0 package/import/let/type and derives the expected Go declaration sequence (funcs with arity, vars, structs with field names, union interface + marker methods + Stringers + case structs + New_ func-or-var), which must equal the generated file's; " +
 		"(c) per-definition leaf agreement: the ordered sequence of integer and string literal values (escape processing and the documented $-literal/GoEval transformations applied) and the counts of if/match/not/|>/<>/&&/|| constructs agree; " +
 		"(d) every generated file is gofmt-idempotent; (e) samples/README.md equals the documented template evaluated on the checked-in files, pkg/pkg_all.foi equals the concatenation named in collect_all_foi.sh; the wrappers the reproduction relies on (sys.ReadFile/WriteFile) are verbatim. " +
-		"Catches one-sided edits; does NOT catch an edit that changes grouping, a comparison operator, argument order or an identifier on one side only, nor a compiler change whose regenerated output was only partly checked in."
-	r.NotDecided = []string{"equality of function bodies beyond leaves, construct counts and declaration shape", "reproduction by a rebuilt compiler; generation 2 (one seeded variant — output one generation behind after a compiler change — is NOT detected, as expected for a static check)"}
+		"(c3) the ordered skeleton of every definition — identifiers outside type positions, operators, literals, if/match/not/pipe, with the compiler's own additions (temporaries, inserted frt helpers, case-struct spelling) set aside — agrees; (g) every file fc reads is a sequence of well-formed top-level items on the checker's own token stream. " +
+		"Catches one-sided edits of constants, declarations, operands, argument order, locals, fields and operators; does NOT catch an edit that changes only grouping (parentheses) or a type annotation on one side, nor a compiler change whose regenerated output was only partly checked in."
+	r.NotDecided = []string{"equality of function bodies beyond the ordered skeleton (grouping, type annotations)", "reproduction by a rebuilt compiler; generation 2 (one seeded variant — output one generation behind after a compiler change — is NOT detected, as expected for a static check)"}
 	r.Assumptions = []string{"fc emits literals and the counted constructs of a definition in source order (confirmed on all shipped definitions by this very rule)"}
 	r.Rule("C04.a", "file sets agree (recipes ↔ sources ↔ generated files)", 30)
 	r.Rule("C04.b", "ordered declaration tables agree for every pair", 30)
